@@ -11,7 +11,9 @@ Oracle : differential against scan_path('.') in the same configuration: the func
 """
 from __future__ import annotations
 
+import json
 import os
+import shutil
 from pathlib import Path
 
 from hypothesis import strategies as st
@@ -170,19 +172,34 @@ def run_case(case):
             Configuration.load(Path("."))
             return Scanner.scan_path(Path("."))
 
-        old = os.getcwd()
-        os.chdir(root)
-        try:
-            r = call_sut(do_scan)
-        finally:
-            os.chdir(old)
-            cli.reset_config()
-        if r[0] == "exc":
-            return None  # C03's subject
-        scanned = {
-            k: sorted([(m.start.line, m.start.column, m.value, m.unit_name) for m in e.measurements() if m.value > 30], key=lambda t: -t[2])
-            for k, e in r[1].files.items()
-        }
+        # the scan side goes through the scan entry point as well (codelimit.__main__.scan: options, then .codelimit.yml)
+        # and is read from the report it writes; scan_path with hand-made configuration is only the fallback
+        res = cli.run_scan(root, ".", excludes=case["option"])
+        scanned = None
+        if not res.exc and res.code == 0:
+            try:
+                doc = json.loads((root / ".codelimit_cache" / "codelimit.json").read_text())
+                scanned = {
+                    k: sorted([(m["start"]["line"], m["start"]["column"], m["value"], m["unit_name"]) for m in e["measurements"] if m["value"] > 30], key=lambda t: -t[2])
+                    for k, e in doc["codebase"]["files"].items()
+                }
+            except Exception:  # noqa: BLE001
+                scanned = None
+            shutil.rmtree(root / ".codelimit_cache", ignore_errors=True)
+        if scanned is None:
+            old = os.getcwd()
+            os.chdir(root)
+            try:
+                r = call_sut(do_scan)
+            finally:
+                os.chdir(old)
+                cli.reset_config()
+            if r[0] == "exc":
+                return None  # C03's subject
+            scanned = {
+                k: sorted([(m.start.line, m.start.column, m.value, m.unit_name) for m in e.measurements() if m.value > 30], key=lambda t: -t[2])
+                for k, e in r[1].files.items()
+            }
         for kind, target in case["ways"]:
             if kind == "file":
                 if G.hidden(target):
